@@ -65,6 +65,8 @@ enum class EnumU8 : std::uint8_t { A = 1, B = 255 };
 enum class EnumI32 : std::int32_t { A = -1, B = 70000 };
 enum EnumPlain { kPlainA, kPlainB };
 enum class ErrorEnum { None, Bad, Worse };
+enum class ErrorU8 : std::uint8_t { None, Bad = 200 };
+enum class ErrorU64 : std::uint64_t { None, Bad = 0xffffffffffull };
 
 struct Inner {
   int a;
